@@ -188,6 +188,10 @@ def collect(res, tagname, programs):
 
 
 def run(prop_id, tier, seed, replay=None):
+    replay_doc = None
+    if replay:                      # read it first: it may live in the work dir that is recreated below
+        with open(replay) as f:
+            replay_doc = json.load(f)
     rep = vlib.Report(prop_id, tier, seed)
     wd = vlib.workdir(prop_id)
     rep.rule = ("cases = behaviours of TimeTravel.tla (BFS with a history variable): program with 1-3 record points x input x every "
@@ -197,8 +201,7 @@ def run(prop_id, tier, seed, replay=None):
                 "non-trivial = distinct (program, behaviour) containing a remix that changed final_retval")
     programs = {}
     if replay:
-        with open(replay) as f:
-            pc = json.load(f)["detail"]["pc"]
+        pc = replay_doc["detail"]["pc"]
         programs[("replay", 0)] = pc
     else:
         q = tier == "quick"
